@@ -126,7 +126,7 @@ func sameDump(a, b []node.KV) bool {
 func main() {
 	mon.Main(mon.Options{
 		Property: "C13", Level: "fault_enumeration",
-		Rule: "per scenario (genesis init, apply block incl. finality-raising/pruning blocks, delete tip with/without temp block, delete+apply reorg, re-apply from temp with removeTemp, ClearTempBlocks) the step is run once on a counting strict in-memory FS to enumerate its mutating FS calls (create/write/sync/rename/remove...), then once per call boundary j with a power loss at j (nothing from call j on is durable); after the crash all handles are dropped, unsynced data discarded, the DB reopened by a fresh Chain+Executer; the dump must equal the dump before or after one atomic sub-step, consistency invariants must hold and the node must accept the next block. non-trivial+distinct = (scenario kind, op name at the crash boundary, which allowed state was found)",
+		Rule: "per scenario (genesis init, apply block incl. finality-raising/pruning blocks and blocks whose write batch runs to 100-200 KiB, delete tip with/without temp block, delete+apply reorg, re-apply from temp with removeTemp, ClearTempBlocks) the step is run once on a counting strict in-memory FS to enumerate its mutating FS calls (create/write/sync/rename/remove...), then once per call boundary j with a power loss at j (nothing from call j on is durable); after the crash all handles are dropped, unsynced data discarded, the DB reopened by a fresh Chain+Executer; the dump must equal the dump before or after one atomic sub-step, consistency invariants must hold and the node must accept the next block. non-trivial+distinct = (scenario kind, op name at the crash boundary, which allowed state was found)",
 		Assumptions: []string{
 			"pebble's batch+WAL atomicity and the strict MemFS power-loss model (SetIgnoreSyncs/ResetToSyncedState) are trusted",
 			"the application-side commit (labi.Commit precedes the engine's batch) is outside this DB; the harness realigns the scripted application after the crash (C16 covers recovery)",
